@@ -52,6 +52,8 @@ func init() {
 	// ---- fmt ----
 	reg("fmt.Sprintf", intrSprintf)
 	reg("fmt.Errorf", intrErrorf)
+	reg("errors.Is", intrErrorsIs)
+	reg("errors.As", intrErrorsAs)
 	reg("fmt.Sprint", intrSprint)
 	reg("fmt.Sprintln", intrSprint)
 	reg("fmt.Fprintf", intrFprintf)
@@ -848,4 +850,159 @@ func (w *World) runInits(ex *Explorer) error {
 	}()
 	w.ts.subst = map[*Term]*Term{}
 	return failure
+}
+
+// ---- errors.Is / errors.As (the real ones go through internal/reflectlite) ----
+
+func (it *Interp) dynMethod(iv *Iface, name string) *ssa.Function {
+	if isNilValue(iv) {
+		return nil
+	}
+	sel := it.prog.MethodSets.MethodSet(iv.typ).Lookup(nil, name)
+	if sel == nil {
+		return nil
+	}
+	return it.prog.MethodValue(sel)
+}
+
+// errUnwrap returns the errors directly wrapped by iv (Unwrap() error or Unwrap() []error).
+func (it *Interp) errUnwrap(g *G, iv *Iface) ([]*Iface, bool) {
+	fn := it.dynMethod(iv, "Unwrap")
+	if fn == nil || fn.Signature.Params().Len() != 0 || fn.Signature.Results().Len() != 1 {
+		return nil, true
+	}
+	r, ok := it.callSync(g, &FuncV{fn: fn}, []Value{iv.val})
+	if !ok {
+		return nil, false
+	}
+	switch x := r.(type) {
+	case *Iface:
+		if isNilValue(x) {
+			return nil, true
+		}
+		return []*Iface{x}, true
+	case *Slice:
+		var out []*Iface
+		if !isNilValue(x) {
+			for i := 0; i < x.len; i++ {
+				if e, _ := x.obj.get(x.off + i*x.esz).(*Iface); !isNilValue(e) {
+					out = append(out, e)
+				}
+			}
+		}
+		return out, true
+	}
+	return nil, true
+}
+
+func (it *Interp) errorsIs(g *G, err, target *Iface, depth int) (bool, bool) {
+	if depth > 32 {
+		it.unsupported("errors.Is: chain deeper than 32")
+	}
+	if isNilValue(err) || isNilValue(target) {
+		return isNilValue(err) && isNilValue(target), true
+	}
+	errT := types.Universe.Lookup("error").Type()
+	if types.Comparable(target.typ) && types.Identical(err.typ, target.typ) {
+		if it.decide(it.equalTerm(err, target, errT, errT), "errors.Is: equal") {
+			return true, true
+		}
+	}
+	if fn := it.dynMethod(err, "Is"); fn != nil && fn.Signature.Params().Len() == 1 && fn.Signature.Results().Len() == 1 {
+		r, ok := it.callSync(g, &FuncV{fn: fn}, []Value{err.val, target})
+		if !ok {
+			return false, false
+		}
+		if t, isT := r.(*Term); isT && it.decide(t, "errors.Is: Is method") {
+			return true, true
+		}
+	}
+	inner, ok := it.errUnwrap(g, err)
+	if !ok {
+		return false, false
+	}
+	for _, e := range inner {
+		r, ok := it.errorsIs(g, e, target, depth+1)
+		if !ok {
+			return false, false
+		}
+		if r {
+			return true, true
+		}
+	}
+	return false, true
+}
+
+func intrErrorsIs(it *Interp, g *G, fr *Frame, args []Value, site ssa.Instruction) (Value, stepResult) {
+	e, _ := args[0].(*Iface)
+	t, _ := args[1].(*Iface)
+	r, ok := it.errorsIs(g, e, t, 0)
+	if !ok {
+		return nil, stOK
+	}
+	return it.ts.Bool(r), stOK
+}
+
+func (it *Interp) errorsAs(g *G, err *Iface, target *Ptr, tt types.Type, tiv *Iface, depth int) (bool, bool) {
+	if depth > 32 {
+		it.unsupported("errors.As: chain deeper than 32")
+	}
+	if isNilValue(err) {
+		return false, true
+	}
+	match := false
+	if ti, isI := tt.Underlying().(*types.Interface); isI {
+		match = it.implements(err.typ, ti)
+	} else {
+		match = types.Identical(err.typ, tt)
+	}
+	if match {
+		if _, isI := tt.Underlying().(*types.Interface); isI {
+			it.store(target.obj, target.off, tt, err)
+		} else {
+			it.store(target.obj, target.off, tt, err.val)
+		}
+		return true, true
+	}
+	if fn := it.dynMethod(err, "As"); fn != nil && fn.Signature.Params().Len() == 1 && fn.Signature.Results().Len() == 1 {
+		r, ok := it.callSync(g, &FuncV{fn: fn}, []Value{err.val, tiv})
+		if !ok {
+			return false, false
+		}
+		if t, isT := r.(*Term); isT && it.decide(t, "errors.As: As method") {
+			return true, true
+		}
+	}
+	inner, ok := it.errUnwrap(g, err)
+	if !ok {
+		return false, false
+	}
+	for _, e := range inner {
+		r, ok := it.errorsAs(g, e, target, tt, tiv, depth+1)
+		if !ok {
+			return false, false
+		}
+		if r {
+			return true, true
+		}
+	}
+	return false, true
+}
+
+func intrErrorsAs(it *Interp, g *G, fr *Frame, args []Value, site ssa.Instruction) (Value, stepResult) {
+	e, _ := args[0].(*Iface)
+	tiv, _ := args[1].(*Iface)
+	if isNilValue(tiv) {
+		return nil, it.goPanic(g, "errors: target cannot be nil")
+	}
+	pt, isPtr := tiv.typ.Underlying().(*types.Pointer)
+	p, _ := tiv.val.(*Ptr)
+	if !isPtr || isNilValue(p) {
+		return nil, it.goPanic(g, "errors: target must be a non-nil pointer")
+	}
+	r, ok := it.errorsAs(g, e, p, pt.Elem(), tiv, 0)
+	if !ok {
+		return nil, stOK
+	}
+	return it.ts.Bool(r), stOK
 }
